@@ -109,6 +109,55 @@ def _renamed(sql):
     return sql
 
 
+HASH_SEEDS = ('1', '777', '4242')
+
+
+def results_digest():
+    """{what: sha1 of the result} for parse / print / render / plan / prepare results of the corpus and the planner families (run in a fresh
+    interpreter per PYTHONHASHSEED; the digests must not depend on the seed)"""
+    import hashlib
+    from mindsdb_sql import parse_sql
+    from mindsdb_sql.render.sqlalchemy_render import SqlalchemyRender
+    from harness import planlib as PL, c0910lib, c12lib
+
+    def h(x):
+        return hashlib.sha1(repr(x).encode()).hexdigest()[:12]
+    out = {}
+    corpus = SW.harvest_corpus()
+    for d in SW.DIALECTS:
+        for i, sql in enumerate(corpus[d][:150] + ['SELECT # x', 'SELECT FROM', '', 'SELECT 1 1', "SELECT 'unterminated", 'SELECT a b c FROM', 'CREATE MODEL m PREDICT']):
+            try:
+                ast = parse_sql(sql, d)
+                r = [str(ast), ast.to_tree()]
+                if d == 'mindsdb':
+                    for dn in ('mysql', 'postgres', 'sqlite'):
+                        r.append(SqlalchemyRender(dn).get_string(ast))
+            except Exception as e:  # noqa
+                r = ['%s: %s' % (type(e).__name__, e)]
+            out['parse-print-render|%s|%d' % (d, i)] = h(r)
+    for name in c0910lib.SK:
+        p, e = c0910lib.plan_or_error(c0910lib.text(name, (), (), ()), PL.catalog(api=True, ts=True))
+        out['plan|%s' % name] = h(p.steps if p else e)
+    for i in range(0, len(c0910lib.GEN), 5):
+        p, e = c0910lib.plan_or_error(c0910lib.text(i, (), (), ()), PL.catalog())
+        out['plan|gen%d' % i] = h(p.steps if p else e)
+    for name, (tmpl, k) in c12lib.SKELETONS.items():
+        for full in (True, False):
+            mask = tuple([full] * k)
+            prepared, inlined, vals, n = c12lib.texts(name, mask)
+            try:
+                planner = c12lib.make_planner()
+                steps = []
+                for st in (planner.prepare_steps(parse_sql(prepared, 'mindsdb')) or []):
+                    steps.append(repr(st))
+                    st.set_result(c12lib._columns_result(st))
+                r = [steps, repr(planner.get_statement_info()), [repr(x) for x in planner.execute_steps(vals)]]
+            except Exception as e:  # noqa
+                r = ['%s: %s' % (type(e).__name__, e)]
+            out['prepare|%s|%s' % (name, 'all' if full else 'none')] = h(r)
+    return out
+
+
 def battery(rename=False):
     """a battery of parse / plan / render calls over the corpus and the planner family, failures included.  rename=True runs the
     same statements with other table / CTE / alias names: lazily initialised state does not depend on names, leaked state does"""
@@ -285,23 +334,26 @@ def run(tier):
                 run.ob('render-history:dialect-class-vs-name', 'discharged', '%d renderings compared' % res['compared'])
     except Exception as e:  # noqa
         run.error('render history part crashed: %r' % e)
-    # ---- hash-seed sample (not a verdict)
+    # ---- hash-seed sample (not a verdict): the results of the whole battery in fresh interpreters under several PYTHONHASHSEED values
     try:
-        outs = []
-        for seed in ('1', '777'):
-            code = ("import sys; sys.path.insert(0, %r)\n"
-                    "from harness.C20 import battery, fingerprint\nimport hashlib, json\n"
-                    "from mindsdb_sql import parse_sql\nfrom harness import planlib as PL, c0910lib\n"
-                    "h = hashlib.sha1()\n"
-                    "for name in c0910lib.SK:\n"
-                    "    p, e = c0910lib.plan_or_error(c0910lib.text(name, (), (), ()), PL.catalog(api=True, ts=True))\n"
-                    "    h.update(repr(p.steps if p else e).encode())\n"
-                    "print(h.hexdigest())\n") % VERIF
-            o = subprocess.run([PY, '-W', 'ignore', '-c', code], capture_output=True, text=True, env=dict(os.environ, PYTHONHASHSEED=seed, PYTHONPATH=PYPATH), timeout=300)
-            outs.append(o.stdout.strip().splitlines()[-1] if o.stdout.strip() else 'ERR ' + o.stderr[-200:])
-        run.extra['hash_seed_sample'] = {'seeds': [1, 777], 'plan_digests_equal': outs[0] == outs[1], 'note': 'sampling, not a solver verdict'}
-        if outs[0] != outs[1] and not outs[0].startswith('ERR'):
-            run.counterexample('hash-seed:plans', 'plans of the statement family differ between PYTHONHASHSEED=1 and 777', {'digests': outs}, True)
+        outs = {}
+        for seed in HASH_SEEDS:
+            code = "import sys; sys.path.insert(0, %r)\nfrom harness.C20 import results_digest\nimport json\nprint('DIGEST ' + json.dumps(results_digest()))\n" % VERIF
+            o = subprocess.run([PY, '-W', 'ignore', '-c', code], capture_output=True, text=True, env=dict(os.environ, PYTHONHASHSEED=seed, PYTHONPATH=PYPATH), timeout=600)
+            line = [l for l in o.stdout.splitlines() if l.startswith('DIGEST ')]
+            outs[seed] = json.loads(line[-1][7:]) if line else {'ERR': o.stderr[-300:]}
+        base = outs[HASH_SEEDS[0]]
+        diff = sorted(k for s_ in HASH_SEEDS[1:] for k in set(base) | set(outs[s_]) if base.get(k) != outs[s_].get(k))
+        run.extra['hash_seed_sample'] = {'seeds': list(HASH_SEEDS), 'results_compared': len(base), 'equal': not diff, 'note': 'sampling of %d process configurations, not a solver verdict' % len(HASH_SEEDS)}
+        run.validated += len(base) * (len(HASH_SEEDS) - 1)
+        if 'ERR' in base or any('ERR' in outs[s_] for s_ in HASH_SEEDS):
+            run.extra['hash_seed_sample']['note'] += '; a child interpreter failed: %s' % [outs[s_].get('ERR') for s_ in HASH_SEEDS]
+        elif diff:
+            kinds = sorted(set(k.split('|')[0] for k in diff))
+            for kd in kinds:
+                ex = [k for k in diff if k.split('|')[0] == kd][0]
+                run.counterexample('hash-seed:%s' % kd, 'result of %s differs between processes with different PYTHONHASHSEED (%s)' % (ex, ', '.join(HASH_SEEDS)),
+                                   {'what': ex, 'per_seed': {s_: outs[s_].get(ex) for s_ in HASH_SEEDS}}, True)
     except Exception as e:  # noqa
         run.extra['hash_seed_sample'] = 'failed: %r' % e
     run.finish()
